@@ -104,7 +104,12 @@ def cli_include_stage():
     trees = [("no-sibling", base),
              ("sibling", dict(base, **{"conf/x.cfg": "title confx\n"})),
              ("nested", dict(base, **{"conf/m.cfg": "include sub/a.cfg\n", "conf/sub/a.cfg": "title a.0\ninclude x.cfg\ninclude z.cfg\n"})),
-             ("only-lib2", {"conf/m.cfg": "include x.cfg\n", "lib2/x.cfg": "title lib2x\n"})]
+             ("only-lib2", {"conf/m.cfg": "include x.cfg\n", "lib2/x.cfg": "title lib2x\n"}),
+             # conf/lib.cfg is a symbolic link to ../shared/lib.cfg: what it includes is looked for next to
+             # the file AS NAMED (conf/), not next to the link's target
+             ("symlink", {"conf/m.cfg": "title m.0\ninclude lib.cfg\n", "shared/lib.cfg": "title lib.0\ninclude part.cfg\ninclude only.cfg\n",
+                          "conf/lib.cfg": ("->", "../shared/lib.cfg"), "conf/part.cfg": "title confpart\n", "shared/part.cfg": "title sharedpart\n",
+                          "conf/only.cfg": "title confonly\n"})]
     argsets = [["lib"], ["lib", "."], [".", "lib"], [], ["lib2", "lib"], ["lib", "lib2"], ["lib2"]]
     env = dict(vlib.GOENV, PATH="/nonexistent")
     for tname, files in trees:
@@ -112,8 +117,13 @@ def cli_include_stage():
         try:
             for n, t in files.items():
                 os.makedirs(os.path.dirname(os.path.join(d, n)) or d, exist_ok=True)
-                with open(os.path.join(d, n), "w") as f:
-                    f.write(t)
+                if isinstance(t, tuple):
+                    os.symlink(t[1], os.path.join(d, n))
+                else:
+                    with open(os.path.join(d, n), "w") as f:
+                        f.write(t)
+            # a link reads as its target's text under its own name
+            files = {n: (files[os.path.normpath(os.path.join(os.path.dirname(n), t[1]))] if isinstance(t, tuple) else t) for n, t in files.items()}
             for ia in argsets:
                 args = [exe, "-n", "-p"] + [x for i in ia for x in ("-I", i)] + ["conf/m.cfg"]
                 rc, o = vlib.run(args, timeout=30, cwd=d, env=env, input="")
@@ -162,7 +172,7 @@ def run(tier, seed):
         "evaluations": summary["evaluations"],
         "distinct_nontrivial": summary["distinct_nontrivial"],
         "exhaustive": False,
-        "rule": "(1) EXHAUSTIVE over the template's 46 fields (15 the manual lists as substituted, 31 it does not: actor names after `watches` / `entails for` / in cast lines, member, signal, variable, action, mood names, collection mode, `expects like` target, commands, patterns, labels ...) x 7 definition modes {-D, default, both, undefined, two defaults, two -D, another parameter whose value is ~p~}: ~p~ planted in one field of a complete valid configuration (title, attention, author, parameter name/value, role name, extends, action name/command, spotlight, cleanup, signal name/pattern, cast role, multiplicity, with-environment, actor name, tempo, every-role of scene and watch, scene action, mood, storyline, edit and repeat-from regexps, repeat count and time, member / signal / variable names, label, the four expression kinds, modality, interpretation target, include name), each run twice (planted, reference); plus, for the four expression fields, 9-13 texts with the reference glued to its neighbours (after <= >= == != ( + -, before ) *, two references back to back) under -D / default / undefined; plus, for the 15 substituted fields, 2-8 further VALUES of p each (keywords of the field such as `unconstrained` / `always`, boundary numbers, other spellings) under -D and under a default, compared with the same text with the value written out; (2) random -D lists x `parameter` clauses x strings through the real parseDefines / parseCfg / preprocReplace, names and values containing ~, ~p~, =, empty; one quarter through a `title` clause of the whole parser; (4) the include search through the real command line: 4 directory trees x 7 -I lists, run from a directory that is not the main file's; (3) include graphs (names starting with `/` — appended to every search directory like any other name, decoy at the absolute path —; sequences in which a file of another directory has included something before a later clause elsewhere names a file that exists only there / also in a later -I directory — the search path is per clause; 10/12/25 sequential includes at one level, combs of depth 3-4 with 4 includes per level, a percent sign in file and directory names, chains to depth 12, diamonds, self/mutual/3-cycles, directories, missing, -I only, sibling shadowing, -I order, sibling of the includer not of the main file, `..`, names through parameters) files with and without a final newline (last line a clause, `end`, an include), with the reading order predicted by an independent recursive expander AND compared with the same text with every included file written in place of its clause (include = splice); corpus first. distinct_nontrivial = distinct file sets of at least 8 bytes + preprocessing cases.",
+        "rule": "(1) EXHAUSTIVE over the template's 46 fields (15 the manual lists as substituted, 31 it does not: actor names after `watches` / `entails for` / in cast lines, member, signal, variable, action, mood names, collection mode, `expects like` target, commands, patterns, labels ...) x 7 definition modes {-D, default, both, undefined, two defaults, two -D, another parameter whose value is ~p~}: ~p~ planted in one field of a complete valid configuration (title, attention, author, parameter name/value, role name, extends, action name/command, spotlight, cleanup, signal name/pattern, cast role, multiplicity, with-environment, actor name, tempo, every-role of scene and watch, scene action, mood, storyline, edit and repeat-from regexps, repeat count and time, member / signal / variable names, label, the four expression kinds, modality, interpretation target, include name), each run twice (planted, reference); plus, for the four expression fields, 9-13 texts with the reference glued to its neighbours (after <= >= == != ( + -, before ) *, two references back to back) under -D / default / undefined; plus, for the 15 substituted fields, 2-8 further VALUES of p each (keywords of the field such as `unconstrained` / `always`, boundary numbers, other spellings) under -D and under a default, compared with the same text with the value written out; (2) random -D lists x `parameter` clauses x strings through the real parseDefines / parseCfg / preprocReplace, names and values containing ~, ~p~, =, empty; one quarter through a `title` clause of the whole parser; (4) the include search through the real command line: 5 directory trees (one with a symbolically linked included file) x 7 -I lists, run from a directory that is not the main file's; (3) include graphs (names starting with `/` — appended to every search directory like any other name, decoy at the absolute path —; sequences in which a file of another directory has included something before a later clause elsewhere names a file that exists only there / also in a later -I directory — the search path is per clause; 10/12/25 sequential includes at one level, combs of depth 3-4 with 4 includes per level, a percent sign in file and directory names, chains to depth 12, diamonds, self/mutual/3-cycles, directories, missing, -I only, sibling shadowing, -I order, sibling of the includer not of the main file, `..`, names through parameters) files with and without a final newline (last line a clause, `end`, an include), with the reading order predicted by an independent recursive expander AND compared with the same text with every included file written in place of its clause (include = splice); corpus first. distinct_nontrivial = distinct file sets of at least 8 bytes + preprocessing cases.",
         "samples": summary["samples"],
         "distribution": {k: summary[k] for k in ("counts", "outcomes", "by_stream", "error_classes", "faults", "graph_shapes", "clause_kinds",
                                                   "max_include_depth_reached", "skipped_escaping_root")},
@@ -227,7 +237,7 @@ def run(tier, seed):
                            "expected": {k: inp.get(k) for k in ("HasExpect", "ExpectPos", "ExpectChain", "ExpectCls")}})
     cli = cli_include_stage()
     res.coverage["cli_include_search"] = {"ran": cli["ran"], "agree": cli["agree"],
-                                          "what": "4 directory trees x 7 -I lists through `shakespeare -n -p -I ... conf/m.cfg` run from the tree's root (so the implicit current directory added by initArgs matters): titles read must be those of sibling first, then -I in order, then the current directory"}
+                                          "what": "5 directory trees (one with a symbolically linked included file) x 7 -I lists through `shakespeare -n -p -I ... conf/m.cfg` run from the tree's root (so the implicit current directory added by initArgs matters): titles read must be those of sibling first, then -I in order, then the current directory"}
     for b in cli["bad"][:1]:
         report("cli-include-search-order", "through the command line (%s, run from the root of the %s tree) the titles read are %s (exit %d) where the documented search order gives %s" % (
             " ".join(b["args"]), b["tree"], b["observed_titles"], b["exit"], b["expected_titles"]),
